@@ -52,10 +52,11 @@ VARIABLES
     holder,      \* opener holding the flock, or "none"
     ostate,      \* [opener |-> "idle" | "open" | "draining" | "dead"]
     ioActive,    \* set of openers whose background writers are still running
-    touched      \* ghost: openers that modified files while not holding the lock
+    touched,     \* ghost: openers that modified files while not holding the lock
+    stray        \* openers with a background task (the warm-up worker of an abandoned session) that owns a clone of the store
 
 vars == <<version, readers, writer, waitingW, sessions, changesets, pc, arg, ops, nextSid, commits, reads,
-          holder, ostate, ioActive, touched>>
+          holder, ostate, ioActive, touched, stray>>
 
 NoArg == [owner |-> "none", base |-> 0]
 
@@ -64,7 +65,7 @@ Init ==
     /\ sessions = <<>> /\ changesets = {}
     /\ pc = [t \in Threads |-> "idle"] /\ arg = [t \in Threads |-> NoArg] /\ ops = [t \in Threads |-> 0]
     /\ nextSid = 1 /\ commits = <<>> /\ reads = {}
-    /\ holder = "none" /\ ostate = [o \in Openers |-> "idle"] /\ ioActive = {} /\ touched = {}
+    /\ holder = "none" /\ ostate = [o \in Openers |-> "idle"] /\ ioActive = {} /\ touched = {} /\ stray = {}
 
 Sids == DOMAIN sessions
 Mine(t) == {s \in Sids : sessions[s].owner = t}
@@ -72,7 +73,7 @@ Running == {s \in Sids : sessions[s].worker = "running"}
 Idle(t) == pc[t] = "idle" /\ ops[t] < MaxOps
 Bump(t) == ops' = [ops EXCEPT ![t] = @ + 1]
 
-UnchangedLock == UNCHANGED <<holder, ostate, ioActive, touched>>
+UnchangedLock == UNCHANGED <<holder, ostate, ioActive, touched, stray>>
 
 (***************************************************************************)
 (* Sessions                                                                *)
@@ -190,7 +191,7 @@ ThreadNext ==
 Open(o) ==
     /\ ostate[o] = "idle" /\ holder = "none"
     /\ holder' = o /\ ostate' = [ostate EXCEPT ![o] = "open"] /\ ioActive' = ioActive \cup {o}
-    /\ UNCHANGED <<version, readers, writer, waitingW, sessions, changesets, pc, arg, ops, nextSid, commits, reads, touched>>
+    /\ UNCHANGED <<version, readers, writer, waitingW, sessions, changesets, pc, arg, ops, nextSid, commits, reads, touched, stray>>
 
 \* refused: touches nothing
 OpenRefused(o) ==
@@ -202,12 +203,30 @@ BackgroundWrite(o) ==
     /\ o \in ioActive
     /\ touched' = IF holder = o THEN touched ELSE touched \cup {o}
     /\ UNCHANGED <<version, readers, writer, waitingW, sessions, changesets, pc, arg, ops, nextSid, commits, reads,
-                   holder, ostate, ioActive>>
+                   holder, ostate, ioActive, stray>>
 
 \* drop: first drain the I/O pool, then release the lock (store/mod.rs:303-311)
+\* (store/mod.rs Drop for Shared runs when the LAST clone of the store goes away: if a background task still owns
+\* one, the user's drop returns at once - state "gone" - and the drain + unlock happen when that task ends)
 CloseStart(o) ==
     /\ ostate[o] = "open"
-    /\ ostate' = [ostate EXCEPT ![o] = "draining"]
+    /\ ostate' = [ostate EXCEPT ![o] = IF o \in stray THEN "gone" ELSE "draining"]
+    /\ UNCHANGED <<version, readers, writer, waitingW, sessions, changesets, pc, arg, ops, nextSid, commits, reads,
+                   holder, ioActive, touched, stray>>
+
+\* a session is dropped without being finished while its warm-up worker runs: merkle::WarmUpHandle::drop stops and
+\* joins the worker (guard "join-abandoned-worker"); without the guard the worker lives on until it notices
+AbandonSession(o) ==
+    /\ ostate[o] = "open" /\ o \notin stray
+    /\ G("join-abandoned-worker")
+    /\ stray' = stray \cup {o}
+    /\ UNCHANGED <<version, readers, writer, waitingW, sessions, changesets, pc, arg, ops, nextSid, commits, reads,
+                   holder, ostate, ioActive, touched>>
+
+StrayExit(o) ==
+    /\ o \in stray
+    /\ stray' = stray \ {o}
+    /\ ostate' = [ostate EXCEPT ![o] = IF @ = "gone" THEN "draining" ELSE @]
     /\ UNCHANGED <<version, readers, writer, waitingW, sessions, changesets, pc, arg, ops, nextSid, commits, reads,
                    holder, ioActive, touched>>
 
@@ -215,23 +234,23 @@ Drained(o) ==
     /\ ostate[o] = "draining" /\ o \in ioActive
     /\ ioActive' = ioActive \ {o}
     /\ UNCHANGED <<version, readers, writer, waitingW, sessions, changesets, pc, arg, ops, nextSid, commits, reads,
-                   holder, ostate, touched>>
+                   holder, ostate, touched, stray>>
 
 Unlock(o) ==
     /\ ostate[o] = "draining" /\ holder = o
     /\ G("unlock-after-drain") \/ o \notin ioActive
     /\ holder' = "none" /\ ostate' = [ostate EXCEPT ![o] = "idle"]
     /\ UNCHANGED <<version, readers, writer, waitingW, sessions, changesets, pc, arg, ops, nextSid, commits, reads,
-                   ioActive, touched>>
+                   ioActive, touched, stray>>
 
 \* process death: the kernel closes every descriptor: writers stop and the lock is released together
 Kill(o) ==
-    /\ ostate[o] \in {"open", "draining"} /\ holder = o
-    /\ holder' = "none" /\ ostate' = [ostate EXCEPT ![o] = "dead"] /\ ioActive' = ioActive \ {o}
+    /\ ostate[o] \in {"open", "draining", "gone"} /\ holder = o
+    /\ holder' = "none" /\ ostate' = [ostate EXCEPT ![o] = "dead"] /\ ioActive' = ioActive \ {o} /\ stray' = stray \ {o}
     /\ UNCHANGED <<version, readers, writer, waitingW, sessions, changesets, pc, arg, ops, nextSid, commits, reads, touched>>
 
 LockNext == \E o \in Openers : Open(o) \/ OpenRefused(o) \/ BackgroundWrite(o) \/ CloseStart(o) \/ Drained(o)
-                               \/ Unlock(o) \/ Kill(o)
+                               \/ Unlock(o) \/ Kill(o) \/ AbandonSession(o) \/ StrayExit(o)
 
 \* everything a thread started has ended
 AllQuiet == \A t \in Threads : pc[t] = "idle" /\ Mine(t) = {}
@@ -257,6 +276,8 @@ NoLostCommit == version = Len(commits)
 \* C20
 AtMostOneHandle == Cardinality({o \in Openers : ostate[o] \in {"open", "draining"}}) <= 1
 NobodyWritesUnlocked == touched = {}
+\* once the user's drop of the last handle has returned, nothing of that handle holds the directory any more
+DroppedMeansFree == \A o \in Openers : ostate[o] = "gone" => holder # o
 
 \* deadlock freedom is TLC's deadlock check: Terminal is the only way to stop
 =============================================================================
